@@ -27,6 +27,46 @@ def run(fx, rep, tier):
     rule_poll(fx, rep)
     rule_imm(fx, rep)
     rule_fallback(fx, rep)
+    rule_pair(fx, rep)
+
+
+def rule_pair(fx, rep):
+    """Inside the search every move made on the working copy is taken back before the function returns a score: on every path
+    from a make_move / make_null_move call to a normal (`Ok`) return lies the matching undo. Abort (`Err`) exits are exempt -
+    they leave the copy as it is by design (C09-UNDO) - so a completed search hands the working copy back in the position it
+    was given, and sibling moves are searched from the right position."""
+    search = fx.one("engine::search::search")
+    cone = fx.cone([search.name])
+    ok = True
+    n = 0
+    pairs = (("Game::make_move", "Game::undo_move"), ("Game::make_null_move", "Game::undo_null_move"))
+    for nm in sorted(cone):
+        b = fx.bodies[nm]
+        if b.kind not in ("Fn", "AssocFn") or "::tests::" in nm or norm(nm).startswith("chess::") or "Result<" not in b.local_ty(0):
+            continue
+        # blocks that produce the Err result
+        err_blocks = set()
+        for bb, j, st in b.stmts():
+            rv = st.get("rv")
+            if st["k"] == "assign" and st["lhs"]["l"] == 0 and rv and rv["k"] == "agg" and rv.get("variant") == "Err":
+                err_blocks.add(bb)
+        for bb, t in b.calls():
+            if "from_residual" in norm(callee_name(t) or "") and t["dest"]["l"] == 0:
+                err_blocks.add(bb)
+        rets = b.return_blocks()
+        for mk, un in pairs:
+            undo_blocks = [bb for bb, t in b.calls_to(un)]
+            for bb, t in b.calls_to(mk):
+                n += 1
+                tgt = t.get("target")
+                reach = b.reachable(tgt, removed_blocks=list(undo_blocks) + list(err_blocks)) if tgt is not None else set()
+                good = not any(r in reach for r in rets)
+                rep.obligation(good)
+                if not good:
+                    ok = False
+                    rep.violation("C09-PAIR", f"C09-PAIR/{norm(nm).split('::')[-1]}/{mk.split('::')[-1]}", f"`{nm}` line {t.get('line')}: a path from {mk.split('::')[-1]} reaches a normal return without {un.split('::')[-1]}: the working position is left with the move made, "
+                                  f"so the moves searched next (and the caller) see the wrong position", {"fn": nm, "file": b.file, "line": t.get("line")})
+    rep.rule("C09-PAIR", n, 3, ok, "make / undo paired on every non-abort path of the search functions")
 
 
 def rule_err(fx, rep):
@@ -343,6 +383,8 @@ ID = "src/engine/search/iterative_deepening.rs"
 TC = "src/engine/search/time_control.rs"
 SM = "src/engine/search/mod.rs"
 MUTANTS = [
+    {"name": "null move taken back only on a cut-off", "expect": "C09-PAIR/negamax/make_null_move",
+     "edits": [(NG, "            game.undo_null_move();\n\n            if null_score >= beta {\n                return Ok(null_score);\n            }", "            if null_score >= beta {\n                game.undo_null_move();\n                return Ok(null_score);\n            }")]},
     {"name": "fallback move generated from the search's working copy (seed C09-2)", "expect": "C09-FALLBACK/panic-move-position",
      "edits": [(SM, "    iterative_deepening::search(\n        // Give the search its own copy of the game so we don't get one returned in a dirty state\n        // when the search aborts.\n        &mut game.clone(),\n        &mut ctx,\n        &mut pv,\n        reporter,\n    );",
                 "    let mut game = game.clone();\n\n    iterative_deepening::search(&mut game, &mut ctx, &mut pv, reporter);"),
